@@ -1433,7 +1433,7 @@ class Node:
         if conn.ident in self.peer_sockets:
             del self.peer_sockets[conn.ident]
         peer = self._find_connection_peer(conn)
-        if peer:
+        if peer and peer.connection in (None, conn):
             # unset so that a new connection may be made later
             peer.connection = None
             peer.last_disconnect = int(time.time())
